@@ -19,8 +19,12 @@ class C02(Prop):
                 "locateSlice_strict_absent", "slice_never_wraps", "locateSlice_sliceSel_monotonic", "locateSlice_sliceSel_strict", "locateSlice_sliceSel_strict_absent"]
     rule = ("exhaustive grid (also in the quick tier): monotonic int/float axes of length 0-5, both directions, bounds "
             "from {None, below, each label, between, above}, steps {None,1,2,3,-1,-2}; shuffled numeric and str axes "
-            "with bounds from the labels; + seeded random N-d arrays with slices mixed with other index kinds and "
-            "position slices. Observed at Axis.loc (positions selected on the axis) and through a[...]. Non-trivial = "
+            "with bounds from the labels; every lookup of the grid is repeated on an axis whose ordering flag is already "
+            "cached and (one case in three each) with tol= given to the lookup / carried by the axis; + seeded random N-d "
+            "arrays with slices mixed with other index kinds and position slices, in tuple, dict (.loc / .sel / .isel / "
+            ".iloc / take), axis= forms, under both values of indexing.by, with tol= / .nloc / Axis(tol=), on cold and "
+            "warmed axes. Observed at Axis.loc (positions selected on the axis, against the Lean spec and a second "
+            "reading of the statement in Python) and through a[...] (Lean mirror + Python oracle). Non-trivial = "
             "axis length >= 1 and at least one bound not None; distinct = canonical JSON of the case")
     assumptions = ["labels unique and NaN-free", "np.searchsorted / slice.indices as modelled in Prim"]
     exhaustive_tiers = {"quick": True, "thorough": True}
@@ -33,6 +37,7 @@ class C02(Prop):
     # ------------------------------------------------------------ generation
     def grid(self, maxlen=5):
         steps = [None, 1, 2, 3, -1, -2]
+        count = 0
         for kind in ("i", "f"):
             for n in range(0, maxlen + 1):
                 if kind == "i":
@@ -54,8 +59,13 @@ class C02(Prop):
                         if ld:
                             ax["ldtype"] = ld
                         for s, e, st in itertools.product(bounds, bounds, steps):
+                            # the same lookup is repeated on an axis that has been asked for its ordering before
+                            # (cached flag), and - one case in three each - with a tolerance given to the call or
+                            # carried by the axis: a slice selects by its bounds, whatever else is known or asked
+                            count += 1
                             yield {"op": "loc", "axis": ax, "ix": ["sl", None if s is None else enc(s),
-                                                                 None if e is None else enc(e), st], "_src": "grid"}
+                                                                 None if e is None else enc(e), st], "_src": "grid",
+                                   "variants": ["warm"] + [["tol"], ["axis_tol"], []][count % 3]}
 
     def strict_cases(self, rng, n_axes):
         steps = [None, 1, 2, 3, -1, -2]
@@ -74,8 +84,9 @@ class C02(Prop):
             bounds = [None] + labels
             if rng.random() < 0.5:
                 bounds.append(gen.absent_label(rng, ax, frac=True))
+            variants = ["cold" if ax["_warm"] else "warm"] + rng.choice([["tol"], ["axis_tol"], ["tol_inf"], []])
             for s, e, st in itertools.product(bounds, bounds, steps):
-                yield {"op": "loc", "axis": ax, "ix": ["sl", s, e, st], "_src": "strict"}
+                yield {"op": "loc", "axis": ax, "ix": ["sl", s, e, st], "_src": "strict", "variants": variants}
 
     def nd_cases(self, rng, n):
         c1 = c01.PROP
@@ -107,6 +118,69 @@ class C02(Prop):
                 c["_ixkinds"] = [kinds[d]]
             yield c
 
+    LABEL_READS = {"label": [("getitem", "tuple"), ("loc", "tuple"), ("loc", "dict"), ("sel", "dict"), ("take", "tuple"),
+                             ("take_dict", "dict"), ("take_dict_pos", "dict_pos"), ("take_axis_name", "axis"),
+                             ("take_axis_pos", "axis_pos"), ("take_label", "tuple"), ("take_label", "dict"), ("take_label", "axis")],
+                   "position": [("loc", "tuple"), ("loc", "dict"), ("sel", "dict"), ("take_label", "tuple"), ("take_label", "dict"),
+                                ("take_label", "axis_pos"), ("ix_from_position", "tuple")]}
+    POS_READS = {"label": [("ix", "tuple"), ("iloc", "tuple"), ("iloc", "dict"), ("isel", "dict"), ("take_position", "tuple"),
+                           ("take_position", "dict"), ("take_position", "axis"), ("take_position", "axis_pos")],
+                 "position": [("getitem_position_option", "tuple"), ("iloc", "tuple"), ("iloc", "dict"), ("isel", "dict"), ("take", "tuple"),
+                              ("take_dict", "dict"), ("take_dict_pos", "dict_pos"), ("take_axis_name", "axis"), ("take_axis_pos", "axis_pos")]}
+    TOL_READS = {"label": [("take", "tuple"), ("take_dict", "dict"), ("take_dict_pos", "dict_pos"), ("take_axis_name", "axis"),
+                           ("take_axis_pos", "axis_pos"), ("take_label", "tuple"), ("take_label", "dict")],
+                 "position": [("take_label", "tuple"), ("take_label", "dict"), ("take_label", "axis")]}
+
+    def nd_cases2(self, rng, n):
+        """slices in the spellings, options and combinations nd_cases (also the base of other properties' generators,
+        left as it was) does not reach: dict / sel / isel / iloc / axis= forms, option indexing.by='position', together
+        with a tolerance (tol=, .nloc, Axis(tol=)), on axes whose ordering flag is already cached"""
+        c1 = c01.PROP
+        for _ in range(n):
+            option = rng.choice(["label", "label", "position"])
+            rank = rng.choice([1, 2, 2, 3, 3, 4])
+            arr = gen.dtype_variants(rng, gen.rand_array(rng, rank=rank, maxn=5))
+            axes = arr["axes"]
+            posread = rng.random() < 0.3
+            tolmode = None if posread else rng.choice([None, None, None, "call", "nloc", "axis"])
+            if posread:
+                sp, form = rng.choice(self.POS_READS[option])
+            elif tolmode == "call":
+                sp, form = rng.choice(self.TOL_READS[option])
+            elif tolmode == "nloc":
+                sp, form = "nloc", rng.choice(["tuple", "tuple", "dict", "dict_pos"])
+            else:
+                sp, form = rng.choice(self.LABEL_READS[option])
+            c = {"op": "take", "array": arr, "option": option, "spelling": sp, "mode": "position" if posread else "label",
+                 "as_array": rng.random() < 0.3, "_src": "nd2"}
+            if tolmode == "call":
+                c["tol"] = rng.choice(c1.TOLS[:6])
+            elif tolmode == "axis":
+                T = rng.choice(c1.TOLS[:6])
+                for ax in axes:
+                    if ax["kind"] in "if":
+                        ax["tol"] = T
+            if rng.random() < 0.4:
+                c["warm"] = True
+
+            def mk(d):
+                ax = axes[d]
+                if rng.random() < 0.65:
+                    if posread:
+                        ix, k = c1.gen_ix_pos(rng, len(ax["labels"]))
+                        while k != "slice":
+                            ix, k = c1.gen_ix_pos(rng, len(ax["labels"]))
+                        return ix, k
+                    return self.rand_label_slice(rng, ax), "slice"
+                if posread:
+                    return c1.gen_ix_pos(rng, len(ax["labels"]))
+                if tolmode and ax["kind"] in "if" and ax["labels"] and rng.random() < 0.6:
+                    return c1.near_ix(rng, ax)
+                return c1.gen_ix_label(rng, ax)
+            c1.fill_index(rng, c, form, mk)
+            c["_tolmode"] = tolmode or "none"
+            yield c
+
     def rand_label_slice(self, rng, ax):
         labels = ax["labels"]
         numeric_mono = ax["kind"] in "if" and ax.get("_order") in ("inc", "dec")
@@ -131,25 +205,40 @@ class C02(Prop):
         for c in self.strict_cases(rng, 50 if tier == "quick" else 600):
             yield c
         for c in self.nd_cases(rng, 400 if tier == "quick" else 20000):
+            if rng.random() < 0.3:
+                c["warm"] = True          # every axis has been asked for its ordering before the read
+            yield c
+        for c in self.nd_cases2(rng, 600 if tier == "quick" else 30000):
             yield c
 
     # ------------------------------------------------------------ implementation side
     def impl(self, c):
         if c["op"] == "take":
             return c01.PROP.impl(c)
-        ax = core.build_axis(c["axis"])
-        if c["axis"].get("_warm"):
-            ax.is_monotonic()
         ix = c01.py_index(c["ix"], c["axis"])
         n = len(c["axis"]["labels"])
 
-        def run():
-            r = ax.loc(ix)
-            assert isinstance(r, slice)
-            norm = lambda v: None if v is None else int(v)
-            raw = ["slice", norm(r.start), norm(r.stop), norm(r.step)]
-            return {"raw": raw, "positions": [int(p) for p in np.arange(n)[r]]}
-        return core.guarded(run)
+        ax0 = core.build_axis(c["axis"])
+
+        def lookup(warm, **how):
+            ax = Axis(ax0.values.copy(), ax0.name, tol=how.pop("axis_tol", None))      # a fresh axis for every lookup
+            if warm:
+                ax.is_monotonic()           # the ordering flag is cached from now on
+
+            def run():
+                r = ax.loc(ix, **how)
+                assert isinstance(r, slice)
+                norm = lambda v: None if v is None else int(v)
+                raw = ["slice", norm(r.start), norm(r.stop), norm(r.step)]
+                return {"raw": raw, "positions": [int(p) for p in np.arange(n)[r]]}
+            return core.guarded(run)
+        warm = bool(c["axis"].get("_warm"))
+        out = lookup(warm)
+        for v in c.get("variants", ()):
+            o = {"warm": lambda: lookup(True), "cold": lambda: lookup(False), "tol": lambda: lookup(warm, tol=0.25),
+                 "tol_inf": lambda: lookup(warm, tol=np.inf), "axis_tol": lambda: lookup(warm, axis_tol=0.75)}[v]()
+            out.setdefault("variants", {})[v] = o if "err" in o else {"ok": {"positions": o["ok"]["positions"]}}
+        return out
 
     def request(self, c):
         if c["op"] == "take":
@@ -170,6 +259,29 @@ class C02(Prop):
                 bad.append("outcome")
             elif io["ok"]["positions"] != spec:
                 bad.append("values")
+        # ... whatever the axis has cached about its ordering, and whatever tolerance comes with the lookup
+        for v, o in sorted(io.get("variants", {}).items()):
+            if spec == "error":
+                if "tol" in v:
+                    continue        # a tolerance next to a bound that must be an existing label: not spoken about
+                if "err" not in o:
+                    bad.append("outcome@" + v)
+            elif "err" in o:
+                bad.append("outcome@" + v)
+            elif o["ok"]["positions"] != spec:
+                bad.append("values@" + v)
+        # a second reading of the statement, in Python on exact rationals (c01.slice_positions)
+        try:
+            want = c01.slice_positions(c["axis"]["labels"], c["axis"]["kind"], c["ix"][1], c["ix"][2], c["ix"][3])
+        except c01.Demands:
+            want = "error"
+        except c01.Undecided:
+            want = None
+        if want is not None:
+            if ("err" in io) != (want == "error"):
+                bad.append("outcome@py")
+            elif "ok" in io and io["ok"]["positions"] != want:
+                bad.append("values@py")
         # the correspondence: impl vs mirror
         m = []
         if ("err" in io) != ("err" in lib) and ("err" in io) != ("err" in pos):
@@ -200,9 +312,17 @@ class C02(Prop):
             f["kind"] = c["axis"]["kind"]
             if "ok" in io:
                 f["n_selected"] = len(io["ok"]["positions"])
+            for v in c.get("variants", ()):
+                f["variant:" + v] = 1
+            f["cache"] = "warm" if c["axis"].get("_warm") else "cold"
         else:
             f["rank"] = len(c["array"]["axes"])
             f["mode"] = c["mode"]
+            f1 = c01.PROP.features(c, io)
+            for k in ("spelling", "option", "form", "tol", "axis_tol", "warm", "compared_with", "oracle"):
+                f[k] = f1[k]
+            f["tolmode"] = c.get("_tolmode", "none")
+            f["slices"] = sum(1 for k in c.get("_ixkinds", []) if k == "slice")
         return f
 
     def size(self, c):
